@@ -35,7 +35,8 @@ class Baton:
     def __init__(self, prefix=(), trace_files=(), trace_funcs=None):
         """trace_files: path suffixes of source files in which EVERY executed line is a scheduling point (sys.settrace in the
         task threads): line-granular interleaving of the code under test's own orchestration, no hand-placed points needed."""
-        self.trace_files = tuple(trace_files)
+        self.trace_files = tuple(f for f in trace_files if not f.endswith("/"))
+        self.trace_dirs = tuple(f for f in trace_files if f.endswith("/"))   # "verde/": every source file below a directory of that name
         self.trace_funcs = None if trace_funcs is None else set(trace_funcs)   # restrict line tracing to these function names
         self.prefix = list(prefix)
         self.trace = []      # one dict per decision: enabled, choice, cur_enabled
@@ -60,6 +61,7 @@ class Baton:
 
         def make_tracer(k):
             files = self.trace_files
+            dirs = self.trace_dirs
 
             def local(frame, event, arg):
                 if event == "line":
@@ -67,7 +69,8 @@ class Baton:
                 return local
 
             def tracer(frame, event, arg):
-                if event == "call" and frame.f_code.co_filename.endswith(files) and (
+                name = frame.f_code.co_filename
+                if event == "call" and ((files and name.endswith(files)) or any("/" + d in name for d in dirs)) and (
                         self.trace_funcs is None or frame.f_code.co_name in self.trace_funcs):
                     return local
                 return None
@@ -77,7 +80,7 @@ class Baton:
         def body(k):
             sems[k].acquire()
             _local.ctx = (self, k)
-            if self.trace_files:
+            if self.trace_files or self.trace_dirs:
                 sys.settrace(make_tracer(k))
             try:
                 t = graph[k]
@@ -89,7 +92,7 @@ class Baton:
                 failure[k] = exc
                 results[k] = exc
             finally:
-                if self.trace_files:
+                if self.trace_files or self.trace_dirs:
                     sys.settrace(None)
                 _local.ctx = None
                 state[k] = "done"
